@@ -782,7 +782,7 @@ def generate(template_path, repo, canary=False, only_items=None):
                 import tomllib
                 from . import tables as T
                 std = tomllib.load(open(os.path.join(VERIF, "contracts", "standards.toml"), "rb"))
-                tch, tit, tcl, trl = T.render_tables(repo, std)
+                tch, tit, tcl, trl = T.render_tables(repo, std, canary=canary)
                 chunks.extend(tch)
                 items_meta.extend(tit)
                 clauses_meta.extend(tcl)
